@@ -56,7 +56,10 @@ ASSUMPTIONS = [
     'NIfTI-2) is allowed; OPEN finding fromhdr:pixdim-beyond-ndim-reset (cross-class conversion of a header with '
     'ndim<3 resets pixdim[ndim+1:] and hence its qform) is reported as KNOWN-FINDING',
 ]
-RULE = ('streams: setters = headers built through the public setters (shape, zooms, dtype, affines, slope/inter, '
+RULE = ('every endianness argument handed to the API (Klass(endianness=), Klass(bytes, endianness), '
+        'as_byteswapped(code)) is spelled with a random alias from nibabel.volumeutils.endian_codes (24 spellings, both '
+        '"same as current" and "opposite" targets, plus unknown spellings); stream aliases = all spellings exhaustively '
+        'per class x byte order. streams: setters = headers built through the public setters (shape, zooms, dtype, affines, slope/inter, '
         'intent, dim_info, offset) with arbitrary bytes in free fields x {<,>} x 9 header classes, parsed with '
         'explicit and with guessed endianness; raw = arbitrary byte strings; defects = every subset (size<=3 quick, '
         '<=4 thorough) of the seeded defects applicable to the class x {<,>}; chkrand = random bit patterns '
@@ -109,6 +112,39 @@ def classes():
         'mgh': m['mghformat'].MGHHeader,
         'ecat': m['ecat'].EcatHeader,
     }
+
+
+_ALIASES = None
+
+
+def aliases():
+    """{spelling: '<' | '>'} taken from the `_endian_codes` tuple of the working tree (independent of the
+    Recoder lookups the API performs)."""
+    global _ALIASES
+    if _ALIASES is None:
+        rows = nb()['volumeutils']._endian_codes
+        _ALIASES = {}
+        for row in rows:
+            for a in row:
+                _ALIASES.setdefault(a, row[0])
+    return _ALIASES
+
+
+BAD_SPELLINGS = ['x', 'Little', '<>', 'nativ']
+
+
+def resolve(sp):
+    """'<' / '>' for a known spelling, None for an unknown one."""
+    return aliases().get(sp)
+
+
+def spell(rng, code):
+    """A random spelling of byte order `code` ('<' or '>'): any alias that means it on this machine."""
+    return rng.choice(sorted(a for a, v in aliases().items() if v == code))
+
+
+def any_spelling(rng):
+    return rng.choice(sorted(aliases()))
 
 
 ANALYZE_FAMILY = ['analyze', 'spm99', 'spm2', 'nifti1', 'nifti1pair', 'nifti2', 'nifti2pair']
@@ -373,16 +409,18 @@ def make_hdr(cls, e, bs):
 
 # ------------------------------------------------------------------ cases
 
-def mk_case(op, cls, e, bs, stream, valid=False, etrue=None, nontrivial=True):
+def mk_case(op, cls, e, bs, stream, valid=False, etrue=None, nontrivial=True, to=None):
+    """`e`: the endianness argument as SPELLED to the API (any endian_codes alias, or '?' = None);
+    `to`: spelling passed to as_byteswapped (None = only the argument-less call)."""
     hx = bs.hex() or '-'
     if op == 'hdr':
-        line = f'C10 hdr {cls} {NATIVE} {e} {hx}'
+        line = f'C10 hdr {cls} {NATIVE} {e} {to if to is not None else "_"} {hx}'
     elif op == 'chk':
         line = f'C10 chk {cls} {e} {hx}'
     else:
         raise ValueError(op)
-    data = {'op': op, 'cls': cls, 'e': e, 'hex': hx, 'stream': stream, 'valid': valid, 'etrue': etrue}
-    key = (op, cls, e, _sha(bs)) if nontrivial else None
+    data = {'op': op, 'cls': cls, 'e': e, 'to': to, 'hex': hx, 'stream': stream, 'valid': valid, 'etrue': etrue}
+    key = (op, cls, e, to, _sha(bs)) if nontrivial else None
     return Case(line, data, key, stream)
 
 
@@ -400,7 +438,8 @@ def case_from_data(d):
     op = d['op']
     if op in ('hdr', 'chk'):
         bs = b'' if d['hex'] == '-' else bytes.fromhex(d['hex'])
-        return mk_case(op, d['cls'], d['e'], bs, d.get('stream', 'corpus'), d.get('valid', False), d.get('etrue'))
+        return mk_case(op, d['cls'], d['e'], bs, d.get('stream', 'corpus'), d.get('valid', False), d.get('etrue'),
+                       to=d.get('to'))
     if op == 'fromhdr':
         return mk_fromhdr(d['cls'], d['dst'], d['e'], bytes.fromhex(d['hex']), d.get('check', False))
     if op in ('dt', 'codec', 'fdec', 'fhpix'):
@@ -420,19 +459,32 @@ def impl_hdr(case):
         h = make_hdr(cls, e, bs)
     except WrapStructError:
         return 'ERR:WrapStructError'
+    except KeyError:
+        return 'ERR:KeyError'
     bb = h.binaryblock
     c = h.copy()
     out = f'e={h.endianness} bb={bb.hex()} vals={canon_vals(h, K)} copy={int(bool(h == c) and c.binaryblock == bb)}'
     ex = {'h': h, 'bb': bb, 'bs': bs}
     case.extra = ex
+    tseg = ''
+    if d.get('to') is not None:
+        try:
+            t = h.as_byteswapped(d['to'])
+            ex['t'] = t
+            tseg = (f' to={t.endianness}:{t.binaryblock.hex()}:{int(canon_vals(t, K) == canon_vals(h, K))}'
+                    f'{int(bool(h == t))}{int(bool(t == h))}')
+        except KeyError:
+            tseg = ' to=ERR:KeyError'
+        except ValueError:
+            tseg = ' to=ERR:ValueError'
     if cls == 'mgh':
-        return out + ' sw=NA'
+        return out + ' sw=NA' + tseg
     s = h.as_byteswapped()
     ex['s'] = s
     swvals = int(canon_vals(s, K) == canon_vals(h, K))
     back = int(s.as_byteswapped().binaryblock == bb)
     return (out + f' sw={s.endianness}:{s.binaryblock.hex()} swvals={swvals} eq={int(bool(h == s))}{int(bool(s == h))}'
-            f' back={back}')
+            f' back={back}' + tseg)
 
 
 def impl_chk(case):
@@ -446,6 +498,8 @@ def impl_chk(case):
         h = make_hdr(cls, e, bs)
     except WrapStructError:
         return 'ERR:WrapStructError'
+    except KeyError:
+        return 'ERR:KeyError'
     bb0 = h.binaryblock
     br = BatteryRunner(K._get_checks())
     ex = {'bb0': bb0, 'K': K}
@@ -591,14 +645,16 @@ def build_header(rng, cls, e):
                 h[n] = rng.choice([0, 1.5, 2000, 0.25])
         return h
     if cls == 'ecat':
-        h = K(endianness=e)
+        h = K(endianness=spell(rng, e))
         for n, val in (('num_frames', rng.randrange(0, 50)), ('file_type', rng.randrange(0, 15)),
                        ('num_planes', rng.randrange(0, 64)), ('ecat_calibration_factor', rng.choice([1, 0.5, 1234.5])),
                        ('patient_orientation', rng.randrange(0, 9)), ('scan_start_time', rng.randrange(0, 2 ** 31))):
             if rng.random() < 0.8:
                 h[n] = val
         return h
-    h = K(endianness=e)
+    h = K(endianness=spell(rng, e))
+    if h.endianness != e:
+        raise AssertionError(f'{cls}(endianness=<spelling of {e}>) has endianness {h.endianness}')
     nd = rng.choice([0, 1, 2, 3, 3, 3, 4, 4, 5, 6, 7])
     h.set_data_shape(tuple(rng.choice([1, 2, 3, 17, 64, 256, 1000]) for _ in range(nd)))
     h.set_zooms(tuple(rng.choice([0.5, 1, 1.25, 2, 3, 0.1, 2.7]) for _ in range(nd)))
@@ -750,6 +806,34 @@ def _sha(bs):
 def cases(rng, tier):
     K = classes()
     out = []
+
+    def C(op, cls, e, bs, stream, **kw):
+        """Every endianness ARGUMENT handed to the API is drawn from all spellings `endian_codes` accepts:
+        the constructor's `endianness=` as a random alias of the intended order, and (hdr) a target for
+        as_byteswapped(<spelling>) over all aliases of both orders, sometimes an unknown spelling."""
+        if e in ('<', '>') and cls != 'mgh':
+            e = spell(rng, e)
+        if op == 'hdr' and 'to' not in kw:
+            r = rng.random()
+            kw['to'] = any_spelling(rng) if r < 0.9 else (rng.choice(BAD_SPELLINGS) if r < 0.93 else None)
+        return mk_case(op, cls, e, bs, stream, **kw)
+
+    # ---- every spelling of the byte order, as constructor argument and as as_byteswapped target
+    sps = sorted(aliases())
+    for cls in K:
+        for e in (('>',) if cls == 'mgh' else ('<', '>')):
+            h = build_header(rng, cls, e)
+            bb = fill_free(rng, K[cls], h.binaryblock, p=0.3)
+            mine = [a for a in sps if aliases()[a] == e]
+            for j, to in enumerate(sps + BAD_SPELLINGS):
+                ctor = '>' if cls == 'mgh' else mine[j % len(mine)]
+                out.append(mk_case('hdr', cls, ctor, bb, 'aliases', valid=True, etrue=e, to=to))
+            for ctor in mine:
+                out.append(mk_case('chk', cls, '>' if cls == 'mgh' else ctor, bb, 'aliases-chk', valid=True, etrue=e))
+            if cls != 'mgh':
+                for bad in BAD_SPELLINGS:
+                    out.append(mk_case('hdr', cls, bad, bb, 'aliases', to=None))
+                    out.append(mk_case('chk', cls, bad, bb, 'aliases-chk'))
     n_set = {'quick': 14, 'thorough': 300, 'search': 40}[tier]
     n_raw = {'quick': 6, 'thorough': 150, 'search': 20}[tier]
     n_rand = {'quick': 40, 'thorough': 2500, 'search': 120}[tier]
@@ -787,9 +871,9 @@ def cases(rng, tier):
                 if i % 3:
                     bb = fill_free(rng, K[cls], bb)
                 ee = '>' if cls == 'mgh' else e
-                out.append(mk_case('hdr', cls, ee, bb, 'setters', valid=True, etrue=ee, nontrivial=i > 0))
-                out.append(mk_case('hdr', cls, '?', bb, 'setters-guess', valid=True, etrue=ee, nontrivial=i > 0))
-                out.append(mk_case('chk', cls, ee, bb, 'setters-chk', valid=True, etrue=ee, nontrivial=i > 0))
+                out.append(C('hdr', cls, ee, bb, 'setters', valid=True, etrue=ee, nontrivial=i > 0))
+                out.append(C('hdr', cls, '?', bb, 'setters-guess', valid=True, etrue=ee, nontrivial=i > 0))
+                out.append(C('chk', cls, ee, bb, 'setters-chk', valid=True, etrue=ee, nontrivial=i > 0))
                 if i % 4 == 0 and cls in ANALYZE_FAMILY:
                     for dst in ANALYZE_FAMILY:
                         out.append(mk_fromhdr(cls, dst, e, bb, check=False))
@@ -797,7 +881,7 @@ def cases(rng, tier):
             # default header
             if cls != 'mgh':
                 bb = K[cls](endianness=e).binaryblock
-                out.append(mk_case('hdr', cls, '?', bb, 'setters-guess', valid=True, etrue=e, nontrivial=False))
+                out.append(C('hdr', cls, '?', bb, 'setters-guess', valid=True, etrue=e, nontrivial=False))
     # ---- guess sweep: dim[0] over its whole valid range and around it, sizeof_hdr tie breaker
     for cls in ANALYZE_FAMILY:
         fields = {f[0]: f for f in layout_of(K[cls])}
@@ -809,33 +893,33 @@ def cases(rng, tier):
                     put_item(b, fields, e, 'dim', 0, d0)
                     put_item(b, fields, e, 'sizeof_hdr', 0, sz)
                     valid = 1 <= d0 <= 7 or (d0 == 0 and sz == K[cls].sizeof_hdr)
-                    out.append(mk_case('hdr', cls, '?', bytes(b), 'guess-sweep', valid=valid, etrue=e))
+                    out.append(C('hdr', cls, '?', bytes(b), 'guess-sweep', valid=valid, etrue=e))
     for e in '<>':
         fields = {f[0]: f for f in layout_of(K['ecat'])}
         base = bytearray(K['ecat'](endianness=e).binaryblock)
         for sw in (74, 73, 0, 18944, 19018, 65535):
             b = bytearray(base)
             put_item(b, fields, e, 'sw_version', 0, sw)
-            out.append(mk_case('hdr', 'ecat', '?', bytes(b), 'guess-sweep', valid=(sw == 74), etrue=e))
+            out.append(C('hdr', 'ecat', '?', bytes(b), 'guess-sweep', valid=(sw == 74), etrue=e))
     # ---- arbitrary byte strings (and wrong sizes)
     for cls in K:
         size = K[cls].template_dtype.itemsize
         for i in range(n_raw):
             bs = bytes(rng.getrandbits(8) for _ in range(size))
             for e in (('>',) if cls == 'mgh' else ('<', '>', '?')):
-                out.append(mk_case('hdr', cls, e, bs, 'raw'))
-            out.append(mk_case('chk', cls, '>' if cls == 'mgh' else rng.choice('<>'), bs, 'raw-chk'))
+                out.append(C('hdr', cls, e, bs, 'raw'))
+            out.append(C('chk', cls, '>' if cls == 'mgh' else rng.choice('<>'), bs, 'raw-chk'))
         for ln in (0, 1, size - 1, size + 1):
-            out.append(mk_case('hdr', cls, '>', bytes(ln), 'wrong-size'))
+            out.append(C('hdr', cls, '>', bytes(ln), 'wrong-size'))
         if cls == 'mgh':
             for ln in (89, 90, 91, 109, 110, 111, 300):
-                out.append(mk_case('hdr', cls, '>', bytes(rng.getrandbits(8) | 1 for _ in range(ln)), 'mgh-size'))
+                out.append(C('hdr', cls, '>', bytes(rng.getrandbits(8) | 1 for _ in range(ln)), 'mgh-size'))
             for i in range(n_raw):   # goodRASFlag == 0: documented replacement by defaults
                 h = build_header(rng, 'mgh', '>')
                 h['goodRASFlag'] = 0
                 b = bytearray(h.binaryblock)
-                out.append(mk_case('hdr', 'mgh', '>', fill_free(rng, K[cls], bytes(b)), 'mgh-noras'))
-                out.append(mk_case('chk', 'mgh', '>', bytes(b), 'mgh-noras'))
+                out.append(C('hdr', 'mgh', '>', fill_free(rng, K[cls], bytes(b)), 'mgh-noras'))
+                out.append(C('chk', 'mgh', '>', bytes(b), 'mgh-noras'))
     # ---- all subsets of seeded defects
     for cls in K:
         D = defect_table(cls, K[cls])
@@ -849,9 +933,9 @@ def cases(rng, tier):
                         rng.shuffle(order)
                         for dn in order:
                             D[dn](rng, h)
-                        out.append(mk_case('chk', cls, e, h.binaryblock, 'defects', nontrivial=bool(sub)))
+                        out.append(C('chk', cls, e, h.binaryblock, 'defects', nontrivial=bool(sub)))
                         if rep == 0 and r <= 1:
-                            out.append(mk_case('hdr', cls, e, h.binaryblock, 'defects-hdr', nontrivial=bool(sub)))
+                            out.append(C('hdr', cls, e, h.binaryblock, 'defects-hdr', nontrivial=bool(sub)))
     # ---- random bit patterns in the checked fields
     CHK_FIELDS = ['sizeof_hdr', 'datatype', 'bitpix', 'pixdim', 'magic', 'vox_offset', 'qform_code', 'sform_code',
                   'eol_check', 'origin', 'dim', 'version']
@@ -877,7 +961,7 @@ def cases(rng, tier):
                         continue
                     if rng.random() < 0.6:
                         put_item(b, lay, e, fn, k, rand_pattern(rng, isz, kind))
-            out.append(mk_case('chk', cls, e, bytes(b), 'chkrand'))
+            out.append(C('chk', cls, e, bytes(b), 'chkrand'))
     return out
 
 
@@ -897,8 +981,13 @@ def oracle_hdr(case, out):
     if out.startswith('ERR:WrapStructError'):
         ok_len = (len(bs) >= nb()['mghformat'].header_dtype.itemsize) if cls == 'mgh' else len(bs) == size
         return f'{cls}: a binary block of the right size ({len(bs)}) was rejected' if ok_len else None
+    want_e = None if e == '?' else resolve(e)
+    if out.startswith('ERR:KeyError'):
+        return None if (e != '?' and want_e is None) else f'{cls}: endianness spelling {e!r} rejected with KeyError'
     if out.startswith('ERR'):
         return f'{cls}: constructing a header from {len(bs)} bytes raised {out}'
+    if e != '?' and want_e is None and cls != 'mgh':
+        return f'{cls}: unknown endianness spelling {e!r} accepted'
     if cls != 'mgh' and len(bs) != size:
         return f'{cls}: binary block of wrong size {len(bs)} accepted'
     ex = case.extra
@@ -922,8 +1011,8 @@ def oracle_hdr(case, out):
     if bb != expect:
         i = next((i for i in range(min(len(bb), len(expect))) if bb[i] != expect[i]), min(len(bb), len(expect)))
         return f'{cls} endian {e}: header built from bytes serialises to different bytes (first difference at byte {i}, len {len(bb)} vs {len(expect)})'
-    if e in '<>' and he != e:
-        return f'{cls}: built with endianness {e} but reports {he}'
+    if e != '?' and cls != 'mgh' and he != want_e:
+        return f'{cls}: built with endianness {e!r} (= {want_e}) but reports {he}'
     if e == '?' and d.get('valid') and he != d['etrue']:
         return f'{cls}: valid header written in {d["etrue"]} detected as {he}'
     vals = _seg(out, 'vals')
@@ -953,6 +1042,31 @@ def oracle_hdr(case, out):
     h[n0] = old
     if h.binaryblock != bb:
         return f'{cls}: restoring field {n0} does not restore the bytes'
+    to = d.get('to')
+    if to is not None:
+        tgt = resolve(to)
+        tseg = _seg(out, 'to')
+        if tgt is None:
+            if tseg != 'ERR:KeyError':
+                return f'{cls}: as_byteswapped({to!r}) with an unknown spelling gave {str(tseg)[:40]}'
+        elif cls == 'mgh' and tgt != '>':
+            if tseg != 'ERR:ValueError':
+                return f'mgh: as_byteswapped({to!r}) (= {tgt}) should be refused, gave {str(tseg)[:40]}'
+        else:
+            if tseg is None or tseg.startswith('ERR'):
+                return f'{cls} endian {he}: as_byteswapped({to!r}) raised {tseg}'
+            t = ex['t']
+            if t is h:
+                return f'{cls}: as_byteswapped({to!r}) returned the same object'
+            if t.endianness != tgt:
+                return f'{cls} endian {he}: as_byteswapped({to!r}) has endianness {t.endianness}, {to!r} means {tgt}'
+            if not tseg.endswith(':111'):
+                return (f'{cls} endian {he}: as_byteswapped({to!r}) (= {tgt}) does not compare equal / exposes different '
+                        f'field values (same values, h==t, t==h: {tseg[-3:]})')
+            if t.binaryblock != (bb if tgt == he else own_swap(bb, K)):
+                return f'{cls} endian {he}: as_byteswapped({to!r}) (= {tgt}) has the wrong bytes'
+            if own_decode(t.binaryblock, K, t.endianness) != want:
+                return f'{cls} endian {he}: as_byteswapped({to!r}) decodes to different values'
     if cls == 'mgh':
         return None
     s = ex['s']
@@ -981,6 +1095,8 @@ def oracle_chk(case, out):
     bs = b'' if d['hex'] == '-' else bytes.fromhex(d['hex'])
     if out.startswith('ERR:WrapStructError'):
         return None if len(bs) != K.template_dtype.itemsize else f'{cls}: right-sized block rejected'
+    if out.startswith('ERR:KeyError'):
+        return None if resolve(e) is None else f'{cls}: endianness spelling {e!r} rejected'
     if out.startswith('ERR:OverflowError'):
         h = make_hdr(cls, e, bs)
         v = float(h['vox_offset']) if 'vox_offset' in K.template_dtype.names else 0
@@ -1138,6 +1254,7 @@ def signature(case, what):
     w = what.lower()
     if op == 'hdr':
         for k, t in (('serialises to different', 'bytes-roundtrip'), ('detected as', 'endian-guess'), ('differs from the bytes', 'field-values'),
+                     ('as_byteswapped(', 'byteswap-to'), ('spelling', 'endian-spelling'), ('built with endianness', 'endian-spelling'),
                      ('byte-swapped', 'byteswap'), ('as_byteswapped', 'byteswap'), ('copy', 'copy'), ('size', 'size')):
             if k in w:
                 return f'hdr:{d["cls"]}:{t}'
@@ -1174,7 +1291,7 @@ def shrink_candidates(case):
     bs = bytes.fromhex(d['hex'])
     if len(bs) != K.template_dtype.itemsize:
         return
-    e = d['e'] if d['e'] in '<>' else (d.get('etrue') or '<')
+    e = resolve(d['e']) or d.get('etrue') or '<'
     try:
         base = K(endianness=e).binaryblock if d['cls'] != 'mgh' else K().binaryblock
     except Exception:
@@ -1184,4 +1301,5 @@ def shrink_candidates(case):
         ln = isz * cnt
         if bs[off:off + ln] != base[off:off + ln]:
             b2 = bs[:off] + base[off:off + ln] + bs[off + ln:]
-            yield mk_case(d['op'], d['cls'], d['e'], b2, d.get('stream', 'shrunk'), d.get('valid', False), d.get('etrue'))
+            yield mk_case(d['op'], d['cls'], d['e'], b2, d.get('stream', 'shrunk'), d.get('valid', False), d.get('etrue'),
+                          to=d.get('to'))
